@@ -684,15 +684,11 @@ func renderValue(v value, m Model, memo map[int]uint64) string {
 			parts[k] = renderValue(x, m, memo)
 		}
 		return "[" + strings.Join(parts, " ") + "]"
-	case map[value]value:
-		var parts []string
-		for k, x := range v {
-			parts = append(parts, renderValue(k, m, memo)+":"+renderValue(x, m, memo))
-		}
-		sort.Strings(parts)
-		return "{" + strings.Join(parts, " ") + "}"
 	case *symMap:
 		var parts []string
+		if v == nil {
+			return "{}"
+		}
 		for _, e := range v.entries {
 			parts = append(parts, renderValue(e.k, m, memo)+":"+renderValue(e.v, m, memo))
 		}
